@@ -89,6 +89,17 @@ var ProfileC02 = &Profile{
 	},
 }
 
+// chain-level part of C05: join/exit dominated histories, swaps and price moves only now and then
+var ProfileC05 = &Profile{
+	ID: "C05", Name: "lp-value", MinBlocks: 6, MaxBlocks: 40, MaxTxs: 4, Spec: specDefault, Check: CheckC05Chain,
+	Weights: map[string]int{"amm.join": 16, "amm.exit": 18, "leveragelp.open": 5, "leveragelp.close": 4, "amm.swap_in": 3, "amm.swap_out": 2,
+		"oracle.feed_price": 2, "perpetual.open": 1, "perpetual.close": 2, "stablestake.bond": 2, "bank.send": 1},
+	Rule: "history with >=3 judged pool-blocks (only joins/exits, unchanged prices, no perpetual exposure) of which >=1 after an exit, and >=1 successful single-denom exit",
+	NonTrivial: func(h *History) bool {
+		return h.Labels["c05-judged-pool-blocks"] >= 3 && h.Labels["c05-judged-after-exit"] >= 1 && okCount(h, "amm.exit") > 0
+	},
+}
+
 var ProfileC06 = &Profile{
 	ID: "C06", Name: "lending", MinBlocks: 5, MaxBlocks: 40, MaxTxs: 5, Spec: specLending, Check: CheckC06,
 	Weights: map[string]int{"stablestake.bond": 12, "stablestake.unbond": 8, "leveragelp.open": 14, "leveragelp.close": 10, "leveragelp.close_positions": 4,
